@@ -1440,6 +1440,46 @@ def ac13_independent_inputs(model: Model, fc: FnCls, R: RuleResult) -> int:
     return n
 
 
+def ac14_evaluation_context(fc: FnCls, R: RuleResult) -> int:
+    """A pure function whose object parameters backward substitutes (`f.useobjparams(..)` appears somewhere in backward or its closures)
+    is never evaluated there outside such a context (or `f.disable_state_change()`): a bare call runs on whatever tensors the user's
+    object holds at backward time - not the saved ones, and not the differentiable copies - so gradients w.r.t. object-held tensors are
+    lost or taken at the wrong values."""
+    bw = fc.backward
+    family = [f for f in bw.module.functions.values() if f is bw or f.qualname.startswith(bw.qualname + ".")]
+    ctx_names = set()
+    for f in family:
+        for w in own_nodes(f.node):
+            if isinstance(w, ast.With):
+                for i in w.items:
+                    c = i.context_expr
+                    if isinstance(c, ast.IfExp):
+                        c = c.body
+                    if isinstance(c, ast.Call) and isinstance(c.func, ast.Attribute) and c.func.attr in ("useobjparams", "disable_state_change"):
+                        ctx_names.add(ast.unparse(c.func.value))
+    n = 0
+    for f in family:
+        for c in own_nodes(f.node):
+            if isinstance(c, ast.Call) and ast.unparse(c.func) in ctx_names:
+                n += 1
+                recv = ast.unparse(c.func)
+                items = []
+                for w in ancestors(c):
+                    if isinstance(w, ast.With):
+                        for i in w.items:
+                            e = i.context_expr.body if isinstance(i.context_expr, ast.IfExp) else i.context_expr
+                            if isinstance(e, ast.Call) and isinstance(e.func, ast.Attribute):
+                                items.append((ast.unparse(e.func.value), e.func.attr))
+                what = "%s: %s(..) under %s" % (f.qualname.split(".")[-1], recv, items)
+                if any(r_.split(".")[-1] == recv.split(".")[-1] and a_ in ("useobjparams", "disable_state_change") for r_, a_ in items):
+                    R.ok(f.fq, what)
+                else:
+                    R.bad(f, enclosing_stmt(c), "`%s(..)` is evaluated in backward outside `with %s.useobjparams(..)`: it runs on the tensors the user's object holds now, "
+                          "not on the saved / differentiable copies (wrong or missing gradients w.r.t. object-held tensors, wrong values when the object was "
+                          "modified since the forward pass)" % (recv, recv), what=what)
+    return n
+
+
 def hygiene_rules(model: Model, fc: FnCls, prop: str, min_copies: int = 1, min_opt: int = 2, min_conv: int = 0, min_idx: int = 0) -> List[RuleResult]:
     R9 = RuleResult(prop, "AC9", "differentiable copies in backward stay connected to the graph (clone, not detach) when the backward is recorded", min_instances=min_copies)
     RO = RuleResult(prop, "OPT", "backward options: set_default_option(forward options, bck_options); caller's dict never mutated", min_instances=min_opt)
@@ -1461,6 +1501,9 @@ def hygiene_rules(model: Model, fc: FnCls, prop: str, min_copies: int = 1, min_o
     R13 = RuleResult(prop, "AC13", "pull-back inputs are fresh copies made in backward (partial derivatives), never the saved tensors themselves", min_instances=1)
     ac13_independent_inputs(model, fc, R13)
     out.append(R13)
+    R14 = RuleResult(prop, "AC14", "in backward the user's function is only evaluated with its object parameters under control (useobjparams / disable_state_change)", min_instances=0)
+    ac14_evaluation_context(fc, R14)
+    out.append(R14)
     R12 = RuleResult(prop, "AC12", "a tensor created and saved by forward is returned as that very object (it must be the node's output to stay differentiable in a recorded backward)", min_instances=1)
     ac12_saved_output_identity(fc, R12)
     out.append(R12)
